@@ -34,3 +34,4 @@ def run(ctx, rep):
     rep.run(RI.rule_coverage, ctx, rep, "P2", min_sites=10)
     rep.run(RI.rule_typenames_are_keys, ctx, rep, "P3")
     rep.run(RF.rule_no_shared_state, ctx, rep, "P4", packages=("gtwrap/interface_parser", "gtwrap/template_instantiator"))
+    rep.run(RF.rule_locals_defined, ctx, rep, "U1", packages=("gtwrap/template_instantiator",), min_functions=3)
